@@ -310,6 +310,22 @@ fn run(api: &str, ctx: &[i64], v: i64) -> R {
             let by = h.to_bytes();
             R::ok(if good { (((by[0] & 0x0f) << 4) | (by[1] >> 4)) as i64 } else { -7 })
         }
+        "igmp.set_qrv" | "igmp.set_s_flag" | "igmp.set_flags" => {
+            let mut h = igmp::MembershipQueryWithSourcesHeader { max_response_code: igmp::MaxResponseCode(0xff), group_address: igmp::GroupAddress::new([0xff; 4]),
+                                                                 raw_byte_8: ctx[0] as u8, qqic: 0xff, num_of_sources: 0xffff };
+            let before = h.clone();
+            match api {
+                "igmp.set_qrv" => h.set_qrv(igmp::Qrv::try_new(v as u8).unwrap()),
+                "igmp.set_s_flag" => h.set_s_flag(v == 1),
+                _ => h.set_flags(v as u8),
+            }
+            // getters decode the byte, nothing else moves; the byte as it is encoded
+            let good = h.qrv().value() == h.raw_byte_8 & 7 && h.s_flag() == (h.raw_byte_8 & 8 != 0) && h.flags() == h.raw_byte_8 >> 4
+                && igmp::MembershipQueryWithSourcesHeader { raw_byte_8: before.raw_byte_8, ..h.clone() } == before;
+            let by = IgmpHeader::new(IgmpType::MembershipQueryWithSources(h)).to_bytes();
+            R::ok(if good && by.len() == 12 { by[8] as i64 } else { -7 })
+        }
+        "igmp.max_resp_10th" => R::ok(igmp::MaxResponseCode(v as u8).as_10th_secs() as i64),
         "ipv4.payload_len" => {
             let mut h = Ipv4Header::new(0, 4, IpNumber(17), [1; 4], [2; 4]).unwrap();
             h.options = vec![1u8; ctx[0] as usize].as_slice().try_into().unwrap();
